@@ -150,6 +150,10 @@ def run(ctx):
         w.add('events', ('io-error-one-outcome', exp))
         io.append(w)
     run_suite(ctx, 'match.io-errors', io, known=known, use_model=False)
+    import cleanworlds as cw
+    bigs = [cw.render('c20-big-%d' % k, cw.big_clean_spec(g, mode, srt), [('summary-lists-exactly-the-obsolete-items', cw.o_stale_reported)])
+            for k, (mode, srt) in enumerate([((False, ''), '-'), ((False, 'clean'), '1')])]
+    run_suite(ctx, 'clean.big-file-summary', bigs, known=known)
     # a very long line (> 1 MiB) in a snapshot file that Clean examines: the totals must still be shown
     hw = World('c20huge')
     hw.add(mode_line(False, ''))
